@@ -1075,8 +1075,8 @@ fn jdoc(node: &Value) -> Value {
 /// not C09's subject)
 fn jcoq(node: &Value) -> String {
     match node["t"].as_str().unwrap_or("") {
-        "s" => format!("(JStr {})", clist(vusizes(&node["s"]).iter().map(|c| c.to_string()))),
-        "a" => format!("(JArr {})", clist(node["items"].as_array().cloned().unwrap_or_default().iter().map(jcoq))),
+        "s" => format!("(TxStr {})", clist(vusizes(&node["s"]).iter().map(|c| c.to_string()))),
+        "a" => format!("(TxArr {})", clist(node["items"].as_array().cloned().unwrap_or_default().iter().map(jcoq))),
         _ => {
             let face = if node["face"].is_object() {
                 let f: Face = jface_str(&node["face"]).parse().unwrap_or_default();
@@ -1103,7 +1103,7 @@ fn jcoq(node: &Value) -> String {
             } else {
                 "JBNone".to_string()
             };
-            format!("(JObj {} {} {})", face, wr, body)
+            format!("(TxObj {} {} {})", face, wr, body)
         }
     }
 }
